@@ -243,8 +243,9 @@ Qed.
 Lemma out_eqb_eq a b : out_eqb a b = true -> a = b.
 Proof.
   unfold out_eqb. rewrite !andb_true_iff.
-  intros [[[[[[[H1 H2] H3] H4] H5] H6] H7] H8].
+  intros [[[[[[[[[H1 H2] H3] H4] H5] H6] H7] H8] H9] H10].
   destruct a, b; cbn in *.
+  apply Bool.eqb_prop in H9. apply Nat.eqb_eq in H10.
   apply rc_eqb_eq in H1. apply Nat.eqb_eq in H2. apply list_eqb_eq in H3.
   apply Bool.eqb_prop in H4. apply list_eqb_eq in H5. apply list_eqb_eq in H6.
   apply Bool.eqb_prop in H7. apply list_eqb_eq in H8. congruence.
@@ -312,11 +313,11 @@ Section Readings.
     o_dbad o = false /\ o_dlive o = [].
   Proof.
     intros Hh. pose proof (wf_good sc WF f) as G. unfold good in G. fold o in G. rewrite Hh in G.
-    unfold good_ok in G.
-    repeat (apply andb_prop in G; let H' := fresh "E" in destruct G as [G H']).
-    apply rc_eqb_eq in G. apply negb_true_iff in E2.
-    pose proof (proj1 (same_set_spec _ _) E1) as E1'.
-    apply negb_true_iff in E0. apply (proj1 (is_nil_spec _)) in E. auto.
+    unfold good_ok in G. rewrite !andb_true_iff in G.
+    destruct G as [[[[[G1 G2] G3] G4] G5] _].
+    apply rc_eqb_eq in G1. apply negb_true_iff in G2.
+    pose proof (proj1 (same_set_spec _ _) G3) as G3'.
+    apply negb_true_iff in G4. apply (proj1 (is_nil_spec _)) in G5. auto.
   Qed.
 
   Lemma wf_fault_hit :
@@ -326,12 +327,12 @@ Section Readings.
     o_dbad o = false /\ o_dlive o = [].
   Proof.
     intros Hh. pose proof (wf_good sc WF f) as G. unfold good in G. fold o in G. rewrite Hh in G.
-    unfold good_fail in G.
-    repeat (apply andb_prop in G; let H' := fresh "E" in destruct G as [G H']).
-    apply negb_true_iff in E2. apply negb_true_iff in E0. apply (proj1 (is_nil_spec _)) in E.
-    split; [|split; [exact E2|split; [|split; [exact E0|exact E]]]].
-    - intros Hr. rewrite Hr in G. apply rc_eqb_eq in G. exact G.
-    - intros Hr. rewrite Hr in E1. exact (proj1 (same_set_spec _ _) E1).
+    unfold good_fail in G. rewrite !andb_true_iff in G.
+    destruct G as [[[[[G1 G2] G3] G4] G5] _].
+    apply negb_true_iff in G2. apply negb_true_iff in G4. apply (proj1 (is_nil_spec _)) in G5.
+    split; [|split; [exact G2|split; [|split; [exact G4|exact G5]]]].
+    - intros Hr. rewrite Hr in G1. apply rc_eqb_eq in G1. exact G1.
+    - intros Hr. rewrite Hr in G3. exact (proj1 (same_set_spec _ _) G3).
   Qed.
 
   Lemma wf_destroy_releases_all : o_dbad o = false /\ o_dlive o = [].
@@ -355,11 +356,15 @@ Definition holds (sc : scn) (f : nat -> bool) : Prop :=
   let o := run_scn sc f in
   (hit f (o_att o) = false ->
      o_rc o = Ok /\ o_bad o = false /\ (forall r, In r (o_live o) <-> In r (s_owns sc)) /\
-     o_dbad o = false /\ o_dlive o = []) /\
+     o_dbad o = false /\ o_dlive o = [] /\
+     (* every stored value is released by destroy (exactly once: a second release is a double free = o_dbad) *)
+     o_freed o = length (s_values sc)) /\
   (hit f (o_att o) = true ->
      (s_reports sc = true -> o_rc o = Fail) /\ o_bad o = false /\
      (s_retains sc = false -> forall r, In r (o_live o) <-> In r (o_base o)) /\
-     o_dbad o = false /\ o_dlive o = []).
+     o_dbad o = false /\ o_dlive o = [] /\
+     (* safe to retry: the retried operation succeeds and destroy then releases every value *)
+     (s_retry sc = true -> o_retry_ok o = true /\ o_freed o = length (s_values sc))).
 
 Lemma rc_eqb_refl a : rc_eqb a a = true.
 Proof. destruct a; reflexivity. Qed.
@@ -368,36 +373,42 @@ Lemma holds_good sc f : holds sc f -> good sc f (run_scn sc f) = true.
 Proof.
   unfold holds, good. cbv zeta. intros [H0 H1].
   destruct (hit f (o_att (run_scn sc f))).
-  - destruct (H1 eq_refl) as [A [B [C [D E]]]]. unfold good_fail.
+  - destruct (H1 eq_refl) as [A [B [C [D [E F]]]]]. unfold good_fail.
     rewrite !andb_true_iff. repeat split.
     + destruct (s_reports sc); [rewrite A by reflexivity; reflexivity|reflexivity].
     + rewrite B. reflexivity.
     + destruct (s_retains sc); [reflexivity|]. apply same_set_spec. apply C. reflexivity.
     + rewrite D. reflexivity.
     + rewrite E. reflexivity.
-  - destruct (H0 eq_refl) as [A [B [C [D E]]]]. unfold good_ok.
+    + destruct (s_retry sc); [|reflexivity]. destruct (F eq_refl) as [F1 F2].
+      rewrite F1. unfold freed_all. rewrite F2. apply Nat.eqb_refl.
+  - destruct (H0 eq_refl) as [A [B [C [D [E F]]]]]. unfold good_ok.
     rewrite !andb_true_iff. repeat split.
     + rewrite A. reflexivity.
     + rewrite B. reflexivity.
     + apply same_set_spec. exact C.
     + rewrite D. reflexivity.
     + rewrite E. reflexivity.
+    + unfold freed_all. rewrite F. apply Nat.eqb_refl.
 Qed.
 
 Lemma good_holds sc f : good sc f (run_scn sc f) = true -> holds sc f.
 Proof.
   unfold holds, good. cbv zeta. intros G. split; intros Hh; rewrite Hh in G.
-  - unfold good_ok in G.
-    repeat (apply andb_prop in G; let H' := fresh "E" in destruct G as [G H']).
-    apply rc_eqb_eq in G. apply negb_true_iff in E2.
-    pose proof (proj1 (same_set_spec _ _) E1) as E1'.
-    apply negb_true_iff in E0. apply (proj1 (is_nil_spec _)) in E. auto.
-  - unfold good_fail in G.
-    repeat (apply andb_prop in G; let H' := fresh "E" in destruct G as [G H']).
-    apply negb_true_iff in E2. apply negb_true_iff in E0. apply (proj1 (is_nil_spec _)) in E.
-    split; [|split; [exact E2|split; [|split; [exact E0|exact E]]]].
-    + intros Hr. rewrite Hr in G. apply rc_eqb_eq in G. exact G.
-    + intros Hr. rewrite Hr in E1. exact (proj1 (same_set_spec _ _) E1).
+  - unfold good_ok in G. rewrite !andb_true_iff in G.
+    destruct G as [[[[[G1 G2] G3] G4] G5] G6].
+    apply rc_eqb_eq in G1. apply negb_true_iff in G2.
+    pose proof (proj1 (same_set_spec _ _) G3) as G3'.
+    apply negb_true_iff in G4. apply (proj1 (is_nil_spec _)) in G5.
+    apply Nat.eqb_eq in G6. auto 10.
+  - unfold good_fail in G. rewrite !andb_true_iff in G.
+    destruct G as [[[[[G1 G2] G3] G4] G5] G6].
+    apply negb_true_iff in G2. apply negb_true_iff in G4. apply (proj1 (is_nil_spec _)) in G5.
+    split; [|split; [exact G2|split; [|split; [exact G4|split; [exact G5|]]]]].
+    + intros Hr. rewrite Hr in G1. apply rc_eqb_eq in G1. exact G1.
+    + intros Hr. rewrite Hr in G3. exact (proj1 (same_set_spec _ _) G3).
+    + intros Hr. rewrite Hr in G6. apply andb_prop in G6. destruct G6 as [R1 R2].
+      apply Nat.eqb_eq in R2. split; assumption.
 Qed.
 
 (* MAIN: a scenario accepted by the checker satisfies the property under EVERY fault function *)
